@@ -30,6 +30,7 @@ import (
 	"verif/harness/internal/props/c20"
 	"verif/harness/internal/props/x01"
 	"verif/harness/internal/props/x02"
+	"verif/harness/internal/props/x03"
 	"verif/harness/internal/tlc"
 )
 
@@ -54,6 +55,7 @@ var drivers = map[string]core.Driver{
 	"C17": c17.Driver{},
 	"C18": c18.Driver{},
 	"C20": c20.Driver{},
+	"X03": x03.Driver{}, // extension: the algebra of canvas.Rect (spec/RectAlg.tla)
 	"X02": x02.Driver{}, // extension: FontFamily.Face decision table (spec/FontMatch.tla)
 	"X01": x01.Driver{}, // extension beyond the listed properties (evidence in evidence_ext/)
 }
